@@ -88,6 +88,17 @@ impl BlockDecoder {
             }
             oti::FECEncodingID::RaptorQ => {
                 if let Some(SchemeSpecific::RaptorQ(scheme)) = oti.scheme_specific.as_ref() {
+                    // The RaptorQ library asserts on these (division by zero for Al = 0 or N = 0). The EXT_FTI
+                    // parser checks Al, but a Scheme-Specific-Info that comes from the FDT is taken as is
+                    if scheme.symbol_alignment == 0
+                        || oti.encoding_symbol_length % scheme.symbol_alignment as u16 != 0
+                        || scheme.sub_blocks_length == 0
+                    {
+                        return Err(FluteError::new(format!(
+                            "RaptorQ symbol alignment Al={} / number of sub-blocks N={} not valid for a symbol of {} bytes",
+                            scheme.symbol_alignment, scheme.sub_blocks_length, oti.encoding_symbol_length
+                        )));
+                    }
                     let codec = fec::raptorq::RaptorQDecoder::new(
                         sbn,
                         nb_source_symbols as usize,
